@@ -368,38 +368,51 @@ def texts_unchanged_rule(ctx, rule):
                     bad.add(nm)
         ok = not bad
         rep.ob(rule, "diagnostic-texts-styled-only", ok, "" if ok else "colorized applies %s to the library's diagnostic text: what is printed is no longer the text the library reported" % sorted(bad), col.loc(), how="styling only")
+    def text_path(fn, pidx, depth=0):
+        """(found, ok, detail, where): how the text of parameter pidx of fn gets into the output -- to_string() handed straight to a styling
+        call, here or in a private helper of the same file the parameter is passed to"""
+        ts = [(bi, t) for bi, t in fn.calls() if t["callee"].get("name") == "to_string" and t["args"] and any(d == ("param", pidx) for d, _ in kind_deep(fn, t["args"][0]))]
+        if ts:
+            bi, t = ts[0]
+            users, frontier, seen_ = [], [bi], set()
+            while frontier:
+                src = frontier.pop()
+                if src in seen_:
+                    continue
+                seen_.add(src)
+                for b2, t2 in fn.calls():
+                    if b2 != src and any(d == ("call", src) for a in t2["args"] for d, _ in origins(fn, a)):
+                        if t2["callee"].get("name") in ("deref", "as_str", "as_ref", "borrow"):
+                            frontier.append(b2)
+                        else:
+                            users.append((b2, t2))
+            styled = [t2 for b2, t2 in users if t2["callee"].get("trait") == "colored::Colorize" or (callee_def(t2) or "").startswith("colored::")]
+            inter = [t2["callee"].get("name") for b2, t2 in users if t2 not in styled]
+            ok_ = len(ts) == 1 and bool(styled) and not inter
+            return True, ok_, (inter or "no styling call"), fn.loc(t["line"])
+        if depth < 2:
+            for bi, t in fn.calls():
+                h = F.fn(callee_def(t) or "")
+                if h is None or not h.mir or h.file != fn.file or h.kind == "closure" or h.path == fn.path:
+                    continue
+                for ai, a in enumerate(t["args"]):
+                    if any(d == ("param", pidx) for d, _ in kind_deep(fn, a)):
+                        found, ok_, det, wh = text_path(h, ai + 1, depth + 1)
+                        if found:
+                            return found, ok_, det, wh
+        return False, False, "", None
     n = 0
     for fn in F.all_fns(tests=False):
-        if fn.file != "src/cli/error.rs" or "std::convert::From<" not in fn.path or not fn.path.endswith("::from"):
+        if fn.file != "src/cli/error.rs" or "std::convert::From<" not in fn.path or not fn.path.endswith("::from") or fn.kind == "closure":
             continue
-        ts = [(bi, t) for bi, t in fn.calls() if t["callee"].get("name") == "to_string" and any(d == ("param", 1) for d, _ in kind_deep(fn, t["args"][0]))]
-        if not ts:
+        found, ok, det, wh = text_path(fn, 1)
+        if not found:
             continue
         n += 1
         rep.analysed(fn)
-        bi, t = ts[0]
-        users, frontier, seen_ = [], [bi], set()
-        while frontier:
-            src = frontier.pop()
-            if src in seen_:
-                continue
-            seen_.add(src)
-            for b2, t2 in fn.calls():
-                if b2 != src and any(d == ("call", src) for a in t2["args"] for d, _ in origins(fn, a)):
-                    if t2["callee"].get("name") in ("deref", "as_str", "as_ref", "borrow"):
-                        frontier.append(b2)
-                    else:
-                        users.append((b2, t2))
-        names = [t2["callee"].get("name") for b2, t2 in users]
-        styled = [t2 for b2, t2 in users if t2["callee"].get("trait") == "colored::Colorize" or (callee_def(t2) or "").startswith("colored::")]
-        inter = [x for x in names if x not in ("deref", "as_str", "as_ref", "borrow") and x not in [s_["callee"].get("name") for s_ in styled]]
-        ok = len(ts) == 1 and bool(styled) and not inter
-        if ok:
-            # through deref only: the styled argument is the string itself
-            pass
-        rep.ob(rule, "error-text-is-to_string::%s" % fn.path.split(" as ")[0].lstrip("<").rsplit("::", 1)[-1] if False else "error-text-is-to_string::%d" % n, ok,
-               "" if ok else "%s passes the library's error text through %s before printing it: the message on stderr is not the library's" % (fn.path, inter or "no styling call"),
-               fn.loc(t["line"]), how="p.to_string().normal()")
+        rep.ob(rule, "error-text-is-to_string::%d" % n, ok,
+               "" if ok else "%s passes the library's error text through %s before printing it: the message on stderr is not the library's" % (fn.path, det),
+               wh, how="p.to_string().normal()")
     rep.floor(rule, n, 2, "conversions of library errors in src/cli/error.rs")
 
 
